@@ -9,6 +9,15 @@ OBLIGATIONS = [
          harness="github.com/agglayer/aggkit/l1infotreesync.ZZVerif_C14_L1Info", reach=["unhalted", "stillhalted"],
          bounds="any announced (root, count) != (actual root, 1), any query arguments, any reorg block"),
 ]
+for _rb in (1, 2):
+    for _t, _tn in enumerate(["block", "root"]):
+        OBLIGATIONS.append(dict(name="C14.c bridge syncer halted, reorg from block %d while deletes on table %s fail: error, nothing removed, still halted; clean retry clears" % (_rb, _tn),
+                                harness="github.com/agglayer/aggkit/bridgesync.ZZVerif_C14_BridgeFailedReorg", params={"RB": _rb, "T": _t}, reach=["end"],
+                                tiers=("quick", "thorough") if _rb == 2 else ("thorough",), bounds="two committed blocks with one bridge each, any gap value, all field values"))
+    for _t, _tn in enumerate(["block", "l1_info_root", "rollup_exit_root"]):
+        OBLIGATIONS.append(dict(name="C14.c L1 info syncer halted, reorg from block %d while deletes on table %s fail: error, nothing removed, still halted; clean retry clears" % (_rb, _tn),
+                                harness="github.com/agglayer/aggkit/l1infotreesync.ZZVerif_C14_L1InfoFailedReorg", params={"RB": _rb, "T": _t}, reach=["end"],
+                                tiers=("quick", "thorough") if _rb == 2 else ("thorough",), bounds="two committed blocks with an info update and a verified exit root each, all field values"))
 # entry points that are not data queries of the syncer's own store (with the reason)
 NOT_DATA_QUERIES = {
     "*github.com/agglayer/aggkit/bridgesync.BridgeSync": {
